@@ -42,7 +42,7 @@ def shapes(tier):
     # texts that contain the spelling of a special token (ignored on both sides: it is ordinary text) next to
     # symbolic characters (letters / whitespace of the table's alphabet)
     P, E = [ord(c) for c in '<pad>'], [ord(c) for c in '<eos>']
-    for tb in ('chain', 'empty'):
+    for tb in ('chain', 'none'):
         for sp in ('default', 'bos_eos'):
             for t in (['x', 'x'] + P, P + ['x', 'x'], ['x'] + E + ['x'], ['x', 'x'] + P[:4] + ['x']):
                 out.append({'table': tb, 'len': len(t), 'special': sp, 'max_vocab': None, 'template': t})
